@@ -23,10 +23,23 @@
        context-free, linear and TreeBandit bandits unconditionally, and for Radius/KNearest/LSH and Clusters
        under the stated conditions on the oracles the model takes from the run (the job partition covers the
        rows; k-means assigns every row to an existing cluster).
-    The theorems named ..._context_free / ..._linear carry the strongest (shape included) statements. *)
+    The theorems named ..._context_free / ..._linear carry the strongest (shape included) statements.
+    REFUTED for one configuration (finding D24, C08NnProb.v, reproduced on the code): Radius / LSHNearest constructed with no_nhood_prob_of_arm - add_arm and
+    remove_arm do not resize the list, and predict on a context with an empty neighbourhood then RAISES (numpy's choice: "a and p must have same size")
+    instead of returning an arm of the current list; the model returns "rejected" there (nnprob_len_ok), and the theorems above speak about the answers that
+    are returned. *)
 From Coq Require Import List ZArith Bool Arith QArith Qcanon Permutation.
-From MW Require Import Num Assoc AssocFacts Rng Par CF CFInv CFClean CFForget CFSpec Matrix Lin Warm WarmInv Nbr NbrFacts NbrIndep LshFacts Clu Tree CellFacts Mab FacadeCF FacadeArms MoreFacts NumLaws CFAlg Sim Extra QcInst OrderFacts ExpIrrel LinInv FacadeLin LpInv NbrInv CluTreeInv FacadeAll ToyFacts.
+From MW Require Import Num Assoc AssocFacts Rng Par CF CFInv CFClean CFForget CFSpec Matrix Lin Warm WarmInv Nbr NbrFacts NbrIndep LshFacts Clu Tree CellFacts Mab FacadeCF FacadeArms MoreFacts NumLaws CFAlg Sim Extra QcInst OrderFacts ExpIrrel LinInv FacadeLin LpInv NbrInv CluTreeInv FacadeAll ToyFacts C09All C10All LinForget LinSim MatrixFacts GaussJordan LinSpec NbrIndepGen CluIndep C17Lin WarmIdem C14More LshScale TreeLeaf Rename PopSpec CopyFacts StatFacts CluBatch LinWarm C08NnProb.
 Import ListNotations.
+
+Theorem C08_predict_after_an_arm_change_with_no_nhood_prob_refuted :
+  (exists a : Z,
+     snd (run QcNum Z.eqb ToyRng d24_m0 [d24_fit; d24_query]) = [ODone; OArm (Some a)] /\
+     In a [1%Z; 2%Z]) /\
+  snd (run QcNum Z.eqb ToyRng d24_m0 [d24_fit; AddArm 3%Z None; d24_query]) = [ODone; ODone; ORejected] /\
+  snd (run QcNum Z.eqb ToyRng d24_m0 [d24_fit; RemoveArm 2%Z; d24_query]) = [ODone; ODone; ORejected].
+Proof. exact @predict_after_add_arm_with_no_nhood_prob_refuted. Qed.
+Print Assumptions C08_predict_after_an_arm_change_with_no_nhood_prob_refuted.
 
 Theorem C08_invariant_on_every_history :
   forall (R A G : Type) (N : Num R) (aeqb : A -> A -> bool) (RG : RngOps R G),
